@@ -1,4 +1,5 @@
 import DispatchVerif.Core.BlockP
+import DispatchVerif.Core.BlockCnt
 import DispatchVerif.Core.GroupPD
 import DispatchVerif.Props.C07
 /-! # C19 — dispatch block objects: cancel, wait and notify follow the execution
@@ -63,5 +64,22 @@ example : ∃ s, BlockP.Reachable s ∧ s.sh.bodies = 0 ∧ s.sh.skipped = 1 ∧
     been empty since its registration -/
 theorem group_notify_not_early {s : GroupP.St} (h : GroupP.ReachableSU s) : ∀ id, id ∈ s.sh.submitted → id ∈ s.sh.zeroSince :=
   GroupP.notify_not_early_single_use h
+
+/-! ## the execution counter is a 32-bit word (`BlockCnt`)
+
+`BlockP` counts executions in a natural number; the real counter is a 32-bit `int`. The two agree as long as the word does not wrap:
+as repaired (F40) the word stops at the first value above 1, so it never does. -/
+
+/-- **the private group is left on the first completion and never again, for every number of executions of the block object** (the
+    counter word stops at 2) -/
+theorem first_completion_only_any_count (n : Nat) :
+    (BlockCnt.run n {}).leaves = min n 1 ∧ (BlockCnt.run n {}).performed = min n 2 :=
+  BlockCnt.first_completion_only n
+
+/-- F40 as found (every completion incremented the word): the 2^32 + 1-th execution leaves the group a second time - a trap - and
+    after 2^31 executions the word reads as a negative `int` -/
+theorem F40_as_found : (BlockCnt.runRaw (BlockCnt.W + 1) {}).leaves = 2 ∧ (BlockCnt.runRaw (BlockCnt.W + 1) {}).performed = 1 ∧
+    BlockCnt.asInt (BlockCnt.runRaw 2147483648 {}).performed < 0 :=
+  BlockCnt.F40_as_found
 
 end C19
